@@ -504,6 +504,7 @@ func genFatVals(t *rapid.T) []FatVal {
 	if fat > 0 {
 		n = max(n, 14)
 	}
+	hugeCase := fat > 0 && rapid.IntRange(0, 5).Draw(t, "hugeCase") == 5
 	heads := []string{"a", "b", "c"}
 	seen := map[string]bool{}
 	var out []FatVal
@@ -521,7 +522,10 @@ func genFatVals(t *rapid.T) []FatVal {
 		} else {
 			v.N = rapid.IntRange(0, 6).Draw(t, "thinN")
 		}
-		if s := v.String(); !seen[s] && len(s) < realBlockThreshold {
+		if hugeCase && rapid.IntRange(0, 5).Draw(t, "huge") == 5 {
+			v.N = rapid.IntRange(16000, 40000).Draw(t, "hugeN") / len(v.Fill) // a single token larger than a block
+		}
+		if s := v.String(); !seen[s] {
 			seen[s] = true
 			out = append(out, v)
 		}
@@ -612,8 +616,11 @@ func runStore(c StoreCase) (evid.Result, error) {
 	total := 0
 	for i, v := range c.Vals {
 		vals[i] = v.String()
-		if seen[vals[i]] || len(vals[i]) >= realBlockThreshold {
-			return res, fmt.Errorf("harness: values must be distinct and shorter than a block")
+		if seen[vals[i]] {
+			return res, fmt.Errorf("harness: values must be distinct")
+		}
+		if len(vals[i]) > realBlockThreshold {
+			res.Labels = append(res.Labels, "token-larger-than-a-block")
 		}
 		seen[vals[i]] = true
 		total += len(vals[i])
